@@ -28,6 +28,8 @@ func authMode(r *sim.Rng, nStates, perState int, cw, cwBlk *sim.CaseWriter) {
 		for _, k := range others {
 			g.Accounts = append(g.Accounts, &fsm.Account{Address: k.PublicKey().Address().Bytes(), Amount: 3_000_000_000})
 		}
+		att, vic := newEthActor(), newEthActor()
+		g.Accounts = append(g.Accounts, &fsm.Account{Address: att.addr, Amount: 3_000_000_000}, &fsm.Account{Address: vic.addr, Amount: 3_000_000_000})
 		n, err := sim.NewFNode(g.State(), nil)
 		if err != nil {
 			panic(err)
@@ -40,6 +42,10 @@ func authMode(r *sim.Rng, nStates, perState int, cw, cwBlk *sim.CaseWriter) {
 				if out := n.Apply(&sim.BlockSpec{}); out.Err != nil {
 					break
 				}
+			}
+			if r.Chance(15) {
+				rlpAuthCase(r, n, att, vic, cw)
+				continue
 			}
 			var base []byte
 			if r.Chance(20) {
